@@ -14,6 +14,7 @@ import (
 	"math/big"
 	"os"
 	"path/filepath"
+	"reflect"
 	"runtime"
 	"sort"
 	"strings"
@@ -72,6 +73,7 @@ type SEv struct {
 	OutLen int    `json:"outlen"`
 	Top    int    `json:"top"`
 	Name   string `json:"name"`
+	Kids   []int  `json:"kids"`
 }
 
 func clamp(v uint64) int64 {
@@ -343,6 +345,47 @@ type runOut struct {
 	evs    []SEv
 	result SEv
 	outs   []SEv // inherited tracer outputs
+	tree   []SEv // Artela only: the call tree as the exported query API returns it after the run (node lines + one tree line)
+}
+
+// treeLines dumps the call tree through FindCall / ParentOf / ChildrenOf.
+func treeLines(e *evmx.Env, truncated bool) []SEv {
+	d := evmx.DumpTree(e.EVM.Tracer())
+	var out []SEv
+	for _, n := range d.Nodes {
+		l := SEv{K: "node", D: int(n.Index) + 1, From: n.From, To: n.To, Val: n.Value, GasX: fmt.Sprint(n.Gas), Gas: clamp(n.Gas), Err: errClassOf(n.Err),
+			UsedX: fmt.Sprint(n.Left), Used: clamp(n.Left), Pc: int(n.Parent) + 1, I0: -2, I1: -2, I2: -2, Kids: []int{}}
+		l.InH, l.InLen = n.DataH, n.DataLen
+		l.OutH, l.OutLen = n.RetH, n.RetLen
+		if n.Parent != n.ParentQ {
+			l.Pc = -7 // the two ways of asking for the parent disagree
+		}
+		for _, c := range n.Children {
+			l.Kids = append(l.Kids, int(c)+1)
+		}
+		if fmt.Sprint(n.Children) != fmt.Sprint(n.ChildIdx) {
+			l.Kids = append(l.Kids, -7)
+		}
+		if truncated {
+			l.Top = 1
+		}
+		out = append(out, l)
+	}
+	t := SEv{K: "tree", D: len(d.Nodes), Pc: int(d.Cur) + 1, I0: -2, I1: -2, I2: -2, Kids: []int{}}
+	if d.Beyond[0] || d.Beyond[1] {
+		t.Stk = 1
+	}
+	if truncated {
+		t.Top = 1
+	}
+	return append(out, t)
+}
+
+func errClassOf(t string) string {
+	if strings.HasPrefix(t, "invalid opcode") {
+		return "invalid opcode"
+	}
+	return t
 }
 
 func resultEv(ret []byte, left uint64, err error, panicked string, st *state.StateDB, eip158 bool, addr common.Address) SEv {
@@ -456,6 +499,9 @@ func runArtela(p *gen.Program, o runOpts) (out runOut) {
 	}()
 	out.evs = rec.evs
 	out.result = resultEv(ret, left, err, panicked, st, rules.IsEIP158, addr)
+	if o.tracer && panicked == "" {
+		out.tree = treeLines(e, o.limit > 0 && len(rec.evs) >= o.limit)
+	}
 	if o.tracers && o.tracer {
 		names := make([]string, 0, len(named))
 		for n := range named {
@@ -593,6 +639,18 @@ type pairLine struct {
 	R SEv `json:"r"`
 }
 
+// MarshalJSON keeps the records uniform for TLC: the kids field is always a (possibly empty) list.
+func (p pairLine) MarshalJSON() ([]byte, error) {
+	if p.A.Kids == nil {
+		p.A.Kids = []int{}
+	}
+	if p.R.Kids == nil {
+		p.R.Kids = []int{}
+	}
+	type plain pairLine
+	return json.Marshal(plain(p))
+}
+
 var noneEv = SEv{K: "none", I0: -2, I1: -2, I2: -2}
 
 // zip pairs the two recorded sequences position by position; a missing partner is the "none" event.
@@ -641,6 +699,11 @@ func writeRun(w *os.File, meta progMeta, a, r runOut) int {
 	n++
 	for _, l := range zip(a.outs, r.outs) {
 		_ = enc.Encode(l)
+		n++
+	}
+	// the recorded call tree of the Artela run: no reference counterpart, the trace specification rebuilds the expectation
+	for _, l := range a.tree {
+		_ = enc.Encode(pairLine{A: l, R: l})
 		n++
 	}
 	return n
@@ -799,7 +862,7 @@ func traceCmd(args []string) int {
 					mu.Lock()
 					rep.Runs++
 					rep.Events += nl
-					if a.result != r.result || len(a.evs) != len(r.evs) {
+					if !reflect.DeepEqual(a.result, r.result) || len(a.evs) != len(r.evs) {
 						rep.GoMismatch++
 					}
 					for _, e := range a.evs {
@@ -826,7 +889,7 @@ func traceCmd(args []string) int {
 						rep.Runs++
 						rep.SweepRuns++
 						rep.Events += nl
-						if a.result != r.result || len(a.evs) != len(r.evs) {
+						if !reflect.DeepEqual(a.result, r.result) || len(a.evs) != len(r.evs) {
 							rep.GoMismatch++
 						}
 						mu.Unlock()
